@@ -56,7 +56,7 @@ Steps:
      g++ -std=c++17 SEED/demo.cpp -I{wt}/include -I{wt}/_b/include -I{wt}/_b -I{wt}/ext/sqlite_modern_cpp -I{wt}/src -L{wt}/_b -ldjinterop -lsqlite3 -lz -Wl,-rpath,{wt}/_b -o SEED/demo.bin
    If the demonstration needs something else (sanitizer flags, library sources compiled in), provide SEED/build_demo.sh
    taking the worktree path as $1 and producing SEED/demo.
-4. Verify both directions yourself: with the change (demo fails, ctest passes), then `git stash` / revert, rebuild,
+4. Verify both directions yourself: with the change (demo fails, ctest passes), then revert with `git apply -R SEED/patch.diff` (never `git stash`: the stash is shared by all worktrees of the repository), rebuild,
    demo passes; then re-apply.
 5. Write {wt}/SEED/patch.diff  (cd {wt} && git diff -- src include > SEED/patch.diff) and {wt}/SEED/README.txt with:
    what the change is, what exactly it needs in order to manifest, and why the existing tests do not see it.
